@@ -100,6 +100,40 @@ class CollectionField(FieldType):
             field_dict.update(field.as_dict(fields))
         return field_dict
 
+    def _num_rows(self):
+        """Number of rows. A collection without fields has no field to take it from and remembers its own"""
+        if self.data._fields:
+            return len(self.data)
+        return 0 if self.num_obs is None else self.num_obs
+
+    def subset(self, idx, memo):
+        """Remove observations from the fields in the collection based on index"""
+        num_rows = self._num_rows()
+        super().subset(idx, memo)
+        if not self.data._fields:
+            self.num_obs = len(np.arange(num_rows)[idx])
+
+    def extend(self, other_field, memo):
+        """Add observations from another collection field"""
+        num_rows = self._num_rows() + (other_field._num_rows() if isinstance(other_field, type(self)) else 0)
+        super().extend(other_field, memo)
+        if not self.data._fields:
+            self.num_obs = num_rows
+
+    def prepend_empty(self, num_obs, memo):
+        """Add num_obs empty values to the start of each field in the collection"""
+        num_rows = self._num_rows() + num_obs
+        super().prepend_empty(num_obs, memo)
+        if not self.data._fields:
+            self.num_obs = num_rows
+
+    def append_empty(self, num_obs, memo):
+        """Add num_obs empty values to the end of each field in the collection"""
+        num_rows = self._num_rows() + num_obs
+        super().append_empty(num_obs, memo)
+        if not self.data._fields:
+            self.num_obs = num_rows
+
     def _prepend_empty(self, num_obs, memo):
         """Extend each field in the collection """
         for field in self.data._fields.values():
@@ -138,4 +172,4 @@ class CollectionField(FieldType):
 
     def _extend(self, other_field, memo) -> None:
         """Add observations from another field"""
-        self.data._extend(other_field.data, memo)
+        self.data._extend(other_field.data, memo, self._num_rows(), other_field._num_rows())
